@@ -162,6 +162,21 @@ ENSURES(__CPROVER_was_freed(OLD(v->elem.base)))
 
 #include "vector.c"
 
+
+/* C09: swap exchanges the two objects completely -- storage, size, capacity AND the element
+ * description (element size, constructor, destructor, private pointer) that the storage was laid
+ * out for; so each object stays well-formed with what it now holds.  Any field values. */
+#ifdef VF_G_swap
+#define V_SWAPPED(x, y) ((x)->elem.base == OLD((y)->elem.base) && (x)->elem.size == OLD((y)->elem.size) &&          \
+                         (x)->elem.xtor.cons == OLD((y)->elem.xtor.cons) && (x)->elem.xtor.dest == OLD((y)->elem.xtor.dest) && \
+                         (x)->elem.xtor.priv == OLD((y)->elem.xtor.priv) && (x)->count == OLD((y)->count) && (x)->cap == OLD((y)->cap))
+void cstl_vector_swap(struct cstl_vector * const a, struct cstl_vector * const b)
+REQUIRES(FRESH(a, sizeof(*a)) && FRESH(b, sizeof(*b)))
+ASSIGNS(*a, *b)
+ENSURES(V_SWAPPED(a, b) && V_SWAPPED(b, a))
+;
+#endif
+
 /* ------------------------------------------------------------------ harnesses */
 #ifndef VF_NATIVE
 
@@ -171,6 +186,9 @@ ENSURES(__CPROVER_was_freed(OLD(v->elem.base)))
 cstl_xtor_func_t * const vf_anchor_cons = vf_cons;
 cstl_xtor_func_t * const vf_anchor_dest = vf_dest;
 
+#ifdef VF_G_swap
+void h_swap(void) { struct cstl_vector * a, * b; cstl_vector_swap(a, b); VF_END(); }
+#endif
 void h_set_capacity(void)
 {
     struct cstl_vector * v;
@@ -341,8 +359,25 @@ void h_clear(void)
     VF_NCHECK(vf_n_dest == (vf_w_has_dest ? oc : 0), "destructor once per element");
 }
 
+/* swap of two vectors with different element sizes: each keeps a consistent (size, storage) pair */
+void h_swap(void)
+{
+    struct cstl_vector a, b, a0, b0;
+    cstl_vector_init_complex(&a, 8, NULL, NULL, &a);
+    cstl_vector_init_complex(&b, 1, NULL, NULL, &b);
+    cstl_vector_resize(&a, 4);
+    cstl_vector_resize(&b, 100);
+    a0 = a; b0 = b;
+    cstl_vector_swap(&a, &b);
+    VF_NCHECK(memcmp(&a, &b0, sizeof(a)) == 0 && memcmp(&b, &a0, sizeof(b)) == 0, "swap exchanges the two objects completely (element size included)");
+    VF_NCHECK(malloc_usable_size(a.elem.base) >= (a.cap + 1) * a.elem.size && malloc_usable_size(b.elem.base) >= (b.cap + 1) * b.elem.size,
+              "after swap each vector's storage holds capacity+1 elements of ITS element size");
+    cstl_vector_clear(&a); cstl_vector_clear(&b);
+}
+
 struct vf_harness { const char * name; void (*fn)(void); };
 struct vf_harness vf_harnesses[] = {
+    { "h_swap", h_swap },
     { "h_set_capacity", h_set_capacity }, { "h_reserve", h_reserve }, { "h_shrink", h_shrink },
     { "h_resize", h_resize }, { "h_at", h_at }, { "h_clear", h_clear },
     { NULL, NULL }
